@@ -117,6 +117,33 @@ def check_case(case):
                 sub = {"t": str(t), "n": n, "form": form}
                 res.state((N, str(dtype), ss, case["rate"], case["start"], tq, n, form))
                 one_call(res, case, z, zdata, XL, N, is_c, T0, srx, targ, teff, delta, n, form, sub)
+    # unusual but valid argument forms denote the same request
+    if N >= 5:
+        ref_w = pb.snippet(z, 2, 3)
+        ref_f = pb.snippet(z, 1.25, 3)
+        for form, t_, n_, ref in (("np.int64 t, np.int64 n", np.int64(2), np.int64(3), ref_w), ("np.int8 n", 2, np.int8(3), ref_w),
+                                  ("0-d array t", np.array(2), 3, ref_w), ("np.float32 t", np.float32(1.25), 3, ref_f),
+                                  ("np.float64 t, np.uint8 n", np.float64(1.25), np.uint8(3), ref_f)):
+            try:
+                got = pb.snippet(z, t_, n_)
+            except Exception as e:
+                res.violation(f"snippet|argument form {form} raised", f"{type(e).__name__}: {e}", case, {"form": form})
+                continue
+            res.transitions += 1
+            same_t = (got.start_time is None and ref.start_time is None) or \
+                (got.start_time is not None and abs(T(got.start_time) - T(ref.start_time)) <= 2 * ULP_T)
+            if len(got) != len(ref) or float(np.max(np.abs(np.asarray(got.data) - np.asarray(ref.data)))) > 16 * EPS32 or not same_t:
+                res.violation(f"snippet|argument form {form}", f"request given as {form} differs from the plain Python-number form", case,
+                              {"form": form})
+        for bad in (2.5, np.float64(3.0), "3", None):
+            res.transitions += 1
+            try:
+                pb.snippet(z, 1, bad)
+                if not (isinstance(bad, float) and float(bad).is_integer()):
+                    res.violation("snippet|non-integer n accepted", f"n = {bad!r} accepted", case, {"n": repr(bad)})
+            except Exception:
+                pass
+        res.hits["argument forms"] += 1
     # assignment history on one object: read dt, assign another sample_rate, then a fractional request
     if N >= 5 and T0 is not None:
         zz = type(z).like(z)
@@ -289,7 +316,7 @@ def main(argv=None):
     return report.run_check(
         PID, gen_cases=gen_cases, check_case=check_case, describe=describe,
         required_hits=["Time on start-less signal rejected", "out of range rejected", "n = 0",
-                       "whole-sample count (bit-exact slice)", "fractional (DFT interpolation)", "long signal, large offset", "request a few nano-samples off a whole sample", "sample_rate assigned before a fractional request"],
+                       "whole-sample count (bit-exact slice)", "fractional (DFT interpolation)", "long signal, large offset", "request a few nano-samples off a whole sample", "sample_rate assigned before a fractional request", "argument forms"],
         assumptions=["the instant a request denotes is computed exactly from the form given (count / Quantity / Time); "
                      "resolution allowance 0 / 1e-15 rel / 4 ulp_T*sr samples",
                      "start_time of an empty (n=0) result is unconstrained",
